@@ -47,12 +47,7 @@ Definition in_writer_domain (v : Z * Z * Z * Z * Z) : bool :=
   && ((f <? 1000000000) || (s mod 60 =? 59)).
 (** the value after truncation to the printed precision *)
 Definition truncated (v : Z * Z * Z * Z * Z) (secform : Z) : Z * Z * Z * Z * Z :=
-  let '(y, o, s, f, off) := v in
-  let leap := 1000000000 <=? f in
-  let sub := if leap then f - 1000000000 else f in
-  let nd := frac_digits secform sub in
-  let unit := 10 ^ (9 - nd) in
-  (y, o, s, sub / unit * unit + (if leap then 1000000000 else 0), off).
+  let '(y, o, s, f, off) := v in (y, o, s, truncated_frac secform f, off).
 
 Fixpoint list_eqb (a b : list Z) : bool :=
   match a, b with
